@@ -3,6 +3,7 @@ package main
 // Streams added after the seventh round of seeded changes.
 
 import (
+	"fmt"
 	"strconv"
 	"strings"
 )
@@ -256,3 +257,64 @@ func streamSize(seed uint64, idx int) caseT {
 }
 
 func init() { streamTable["size"] = streamSize }
+
+// bigerr: functions that order or combine an array, on arrays LONGER than the thresholds of a sorting routine (12, 20, 32, 64) in
+// which ONE element has a key of another type, at a chosen position, the other keys ascending / descending / equal / scattered:
+// the call is an error wherever the odd element sits, however long the array is (or whatever the model says it is — the
+// comparison is with the model).
+var (
+	bigErrN     = []int{13, 21, 24, 33, 41, 64, 65, 90}
+	bigErrKinds = []string{"str-among-num", "num-among-str", "null", "bool", "array", "none"}
+	bigErrFns   = []string{"sort_by(arr, &k)[*].i", "max_by(arr, &k).i", "min_by(arr, &k).i", "sort(arr[*].k)", "max(arr[*].k)", "min(arr[*].k)", "sum(arr[*].k)", "avg(arr[*].k)", "join(',', arr[*].k)", "sort_by(arr, &k) | length(@)", "arr[?k > `5`] | length(@)"}
+)
+
+func bigErrCount() int { return len(bigErrN) * 8 * 4 * len(bigErrKinds) * len(bigErrFns) }
+
+func streamBigErr(seed uint64, idx int) caseT {
+	k := idx
+	n := bigErrN[k%len(bigErrN)]
+	k /= len(bigErrN)
+	pos := []int{0, 1, n / 2, 12, 20, 31 % n, 32 % n, n - 1}[k%8]
+	k /= 8
+	order := k % 4
+	k /= 4
+	kind := bigErrKinds[k%len(bigErrKinds)]
+	k /= len(bigErrKinds)
+	fn := bigErrFns[k%len(bigErrFns)]
+	arr := make([]interface{}, n)
+	for i := range arr {
+		var v int
+		switch order {
+		case 0:
+			v = i
+		case 1:
+			v = n - i
+		case 2:
+			v = 7
+		default:
+			v = (i * 7919) % 101
+		}
+		var key interface{} = float64(v)
+		if kind == "num-among-str" {
+			key = fmt.Sprintf("%03d", v)
+		}
+		if i == pos {
+			switch kind {
+			case "str-among-num":
+				key = fmt.Sprintf("%03d", v)
+			case "num-among-str":
+				key = float64(v)
+			case "null":
+				key = nil
+			case "bool":
+				key = true
+			case "array":
+				key = []interface{}{float64(v)}
+			}
+		}
+		arr[i] = map[string]interface{}{"k": key, "i": float64(i)}
+	}
+	return caseT{lines: []string{"S " + hexField(fn) + " " + canonOf(map[string]interface{}{"arr": arr})}}
+}
+
+func init() { streamTable["bigerr"] = streamBigErr }
